@@ -1,3 +1,5 @@
 //! Shared machinery: helper processes, strict minidump decoder, ELF kit,
 //! target program driver, reference models.
+pub mod dumper;
 pub mod helpers;
+pub mod layout;
